@@ -48,7 +48,18 @@ impl PathsIter {
         requires forall|a: (PathS, Option<FileType>)| c.requires((a,)), forall|a: (PathS, Option<FileType>), o: bool| c.ensures((a,), o) ==> o == p(a),
         ensures r == exists|i: int| 0 <= i < self.v@.len() && p(#[trigger] self.v@[i]),
     { unimplemented!() }
+    // Iterator::all
+    #[verifier::external_body]
+    pub fn vall<F: Fn((PathS, Option<FileType>)) -> bool>(self, c: F, Ghost(p): Ghost<spec_fn((PathS, Option<FileType>)) -> bool>) -> (r: bool)
+        requires forall|a: (PathS, Option<FileType>)| c.requires((a,)), forall|a: (PathS, Option<FileType>), o: bool| c.ensures((a,), o) ==> o == p(a),
+        ensures r == forall|i: int| 0 <= i < self.v@.len() ==> p(#[trigger] self.v@[i]),
+    { unimplemented!() }
 }
+#[verifier::external_body]
+pub fn vall_ref<T: Copy, F: Fn(T) -> bool>(xs: &Vec<T>, c: F, Ghost(p): Ghost<spec_fn(T) -> bool>) -> (r: bool)
+    requires forall|a: T| c.requires((a,)), forall|a: T, o: bool| c.ensures((a,), o) ==> o == p(a),
+    ensures r == forall|i: int| 0 <= i < xs@.len() ==> p(#[trigger] xs@[i]),
+{ unimplemented!() }
 #[verifier::external_body]
 pub fn vany_ref<T: Copy, F: Fn(T) -> bool>(xs: &Vec<T>, c: F, Ghost(p): Ghost<spec_fn(T) -> bool>) -> (r: bool)
     requires forall|a: T| c.requires((a,)), forall|a: T, o: bool| c.ensures((a,), o) ==> o == p(a),
